@@ -216,8 +216,30 @@ func checkC14(c *Ctx) {
 	// (e) Unwrap on random stanzas, all four identity types (+ model for the native two)
 	parties := []*party{x25519Party(c.rng.bytes(32)), scryptParty("pw", 2, 10), sshEdParty(c.rng.bytes(32)), sshRSAParty(c.model, 0)}
 	types := []string{"X25519", "scrypt", "ssh-ed25519", "ssh-rsa", "grease"}
+	// the SSH identities' own tags, so that hostile stanzas get past the tag test
+	var tags []string
+	for _, p := range parties[2:] {
+		clearTape()
+		st, err := p.rcpt.Wrap(make([]byte, 16))
+		if err == nil {
+			tags = append(tags, st[0].Args[0])
+		}
+	}
 	for k := 0; k < c.vol(400, 8000); k++ {
 		var ss []*age.Stanza
+		if k%4 == 0 && len(tags) > 0 {
+			// own type, own tag, every arity 0..3
+			ty := []string{"ssh-ed25519", "ssh-rsa"}[k/4%2]
+			s := &age.Stanza{Type: ty, Body: c.rng.bytes([]int{0, 16, 32, 48, 256}[c.rng.intn(5)])}
+			for a := 0; a < (k/8)%4; a++ {
+				if a == 0 {
+					s.Args = append(s.Args, tags[k/4%2%len(tags)])
+				} else {
+					s.Args = append(s.Args, []string{"AAAA", strings.Repeat("A", 43), randArg(c.rng)}[c.rng.intn(3)])
+				}
+			}
+			ss = append(ss, s)
+		}
 		for n := 1 + c.rng.intn(3); n > 0; n-- {
 			s := &age.Stanza{Type: types[c.rng.intn(len(types))], Body: c.rng.bytes([]int{0, 16, 31, 32, 33, 48, 256}[c.rng.intn(7)])}
 			for a := c.rng.intn(4); a > 0; a-- {
